@@ -298,6 +298,19 @@ func (p *pkgInfo) printPlanOf(fd *ast.FuncDecl, typ string) ([]tstep, bool) {
 				continue
 			}
 		}
+		if c, ok := isCall(l, "strconv", "FormatInt"); ok && len(c.Args) == 2 && p.src(c.Args[1]) == "10" {
+			// strconv.FormatInt(int64(rr.F), 10): the same decimal digits as Itoa for an unsigned field of at most 32 bits
+			a := p.src(c.Args[0])
+			if strings.HasPrefix(a, "int64(rr.") && strings.HasSuffix(a, ")") {
+				f := a[9 : len(a)-1]
+				bits := p.fieldBits(typ, f)
+				if bits == 0 || bits > 32 {
+					return nil, false
+				}
+				out = append(out, tstep{Kind: "uint", Bits: bits, Field: f})
+				continue
+			}
+		}
 		if c, ok := isCall(l, "", "sprintName"); ok && len(c.Args) == 1 && rrField(c.Args[0]) != "" {
 			out = append(out, tstep{Kind: "name", Field: rrField(c.Args[0])})
 			continue
